@@ -97,4 +97,13 @@ def run(ctx):
             j1, j2 = ctx.rng.sample(range(nc_), 2)
             ids[j2] = ids[j1]
             case["ids"] = ids
+        elif ctx.rng.random() < 0.12:
+            # integer labels, counted from 0 or 1, in the caller's order (the support column then carries a name of its own
+            # or the library's default): a column is what its position says, whatever its label
+            start = ctx.rng.choice([0, 0, 1])
+            ids = list(range(start, start + nc_))
+            if ctx.rng.random() < 0.5: ctx.rng.shuffle(ids)
+            case["ids"] = ids
+            if ctx.rng.random() < 0.6: case["p"]["first"] = "named"
+            ctx.tags["integer-column-labels"] += 1
         do_case(ctx, case)
